@@ -613,6 +613,16 @@ void verif_proxy::set_replicas(std::string const &dir, int index, int num, uint6
   rep_num = num;
   rep_rng.seed(seed);
   rep_max_delay_us = max_delay_us;
+  // Open every channel of this replica now and keep it open for the life of the process: the
+  // content of a FIFO is discarded when its last descriptor is closed, so a message written by a
+  // peer that then exits must not find the channel unopened on this side (walker restarts)
+  for (int p = 0; p < rep_num; p++) {
+    if (p == rep_index) continue;
+    rep_fd(rep_index, p);
+    rep_fd(p, rep_index);
+    rep_fd(rep_index, p, "b");
+    rep_fd(p, rep_index, "b");
+  }
 }
 
 int verif_proxy::check_replicas_enabled()
@@ -623,10 +633,10 @@ int verif_proxy::check_replicas_enabled()
 int verif_proxy::replica_index() { return rep_index; }
 int verif_proxy::num_replicas() { return rep_num; }
 
-int verif_proxy::rep_fd(int from, int to)
+int verif_proxy::rep_fd(int from, int to, char const *kind)
 {
   char name[64];
-  snprintf(name, sizeof(name), "/f_%d_%d", from, to);
+  snprintf(name, sizeof(name), "/%s_%d_%d", kind, from, to);
   std::string const path = rep_dir + name;
   auto it = rep_fds.find(path);
   if (it != rep_fds.end()) return it->second;
@@ -710,17 +720,7 @@ void verif_proxy::replica_comm_barrier()
   if (rep_num <= 1) return;
   char tok = 'b';
   // separate channel so that barrier tokens never interleave with data messages
-  auto bfd = [this](int from, int to) {
-    char name[64];
-    snprintf(name, sizeof(name), "/b_%d_%d", from, to);
-    std::string const path = rep_dir + name;
-    auto it = rep_fds.find(path);
-    if (it != rep_fds.end()) return it->second;
-    ::mkfifo(path.c_str(), 0600);
-    int const fd = ::open(path.c_str(), O_RDWR);
-    rep_fds[path] = fd;
-    return fd;
-  };
+  auto bfd = [this](int from, int to) { return rep_fd(from, to, "b"); };
   if (rep_index == 0) {
     for (int p = 1; p < rep_num; p++) read_all(bfd(p, 0), &tok, 1);
     for (int p = 1; p < rep_num; p++) write_all(bfd(0, p), &tok, 1);
